@@ -1,0 +1,125 @@
+//go:build verif
+
+package server
+
+// Hooks for the verification harness (properties C06/C07). Nothing here is compiled
+// without the build tag "verif"; no existing line of the package is changed.
+
+import (
+	"sort"
+	"time"
+
+	"example.com/scion-time/net/ntp"
+)
+
+const (
+	VerifC06TssCap     = tssCap
+	VerifC06TssItemCap = tssItemCap
+)
+
+type VerifC06Pair struct {
+	Rx, Tx ntp.Time64
+}
+
+type VerifC06Item struct {
+	Key   string
+	Len   int
+	Pairs []VerifC06Pair // the first Len entries of buf
+	Qval  ntp.Time64
+	Qidx  int
+}
+
+type VerifC06Snap struct {
+	MapLen  int
+	Items   []VerifC06Item // sorted by Key
+	Heap    []string       // keys in heap (array) order; "<nil>" for a nil slot
+	HeapCap int
+}
+
+// VerifC06HandleRequest is handleRequest (the clock reading comes from the clock the
+// caller registered with core/timebase).
+func VerifC06HandleRequest(clientID string, req *ntp.Packet, rxt, txt *time.Time, resp *ntp.Packet) {
+	handleRequest(clientID, req, rxt, txt, resp)
+}
+
+// VerifC06UpdateTXTimestamp is updateTXTimestamp.
+func VerifC06UpdateTXTimestamp(clientID string, rxt time.Time, txt *time.Time) {
+	updateTXTimestamp(clientID, rxt, txt)
+}
+
+func verifC06Item(it *tssItem) VerifC06Item {
+	x := VerifC06Item{Key: it.key, Len: it.len, Qval: it.qval, Qidx: it.qidx}
+	n := it.len
+	if n < 0 {
+		n = 0
+	}
+	if n > len(it.buf) {
+		n = len(it.buf)
+	}
+	x.Pairs = make([]VerifC06Pair, n)
+	for i := 0; i < n; i++ {
+		x.Pairs[i] = VerifC06Pair{Rx: it.buf[i].rxt, Tx: it.buf[i].txt}
+	}
+	return x
+}
+
+// VerifC06Snapshot copies the whole store under tssMu.
+func VerifC06Snapshot() VerifC06Snap {
+	tssMu.Lock()
+	defer tssMu.Unlock()
+	s := VerifC06Snap{MapLen: len(tss), HeapCap: cap(tssQ)}
+	s.Items = make([]VerifC06Item, 0, len(tss))
+	for _, it := range tss {
+		s.Items = append(s.Items, verifC06Item(it))
+	}
+	sort.Slice(s.Items, func(i, j int) bool { return s.Items[i].Key < s.Items[j].Key })
+	s.Heap = make([]string, len(tssQ))
+	for i, it := range tssQ {
+		if it == nil {
+			s.Heap[i] = "<nil>"
+		} else {
+			s.Heap[i] = it.key
+		}
+	}
+	return s
+}
+
+// VerifC06Peek returns one item (ok=false if absent), the number of items, the heap
+// length and the key at the top of the heap ("" if the heap is empty), under tssMu.
+func VerifC06Peek(key string) (item VerifC06Item, ok bool, mapLen, heapLen int, top string) {
+	tssMu.Lock()
+	defer tssMu.Unlock()
+	if it, found := tss[key]; found {
+		item, ok = verifC06Item(it), true
+	}
+	mapLen, heapLen = len(tss), len(tssQ)
+	if len(tssQ) > 0 && tssQ[0] != nil {
+		top = tssQ[0].key
+	}
+	return
+}
+
+// VerifC06HeapWalk calls f for every heap slot in array order, under tssMu
+// (key, qidx, qval, len of the item in that slot).
+func VerifC06HeapWalk(f func(pos int, key string, qidx int, qval ntp.Time64, n int)) {
+	tssMu.Lock()
+	defer tssMu.Unlock()
+	for i, it := range tssQ {
+		if it == nil {
+			f(i, "<nil>", -1, ntp.Time64{}, 0)
+		} else {
+			f(i, it.key, it.qidx, it.qval, it.len)
+		}
+	}
+}
+
+// VerifC06Reset empties the store (independent histories in one process).
+func VerifC06Reset() {
+	tssMu.Lock()
+	defer tssMu.Unlock()
+	tss = make(map[string]*tssItem)
+	for i := range tssQ {
+		tssQ[i] = nil
+	}
+	tssQ = tssQ[:0]
+}
